@@ -14,7 +14,7 @@ static const size_t DS = sizeof(struct crypt_data);
 
 // request pool: (phrase, setting); index 0..5 succeed, 6.. fail
 static const char *const REQ[][2] = {
-  {"alpha", "$1$saltsalt$"}, {"bravo phrase", "ab"}, {"charlie", "$5$rounds=1000$abc$"}, {"delta", "$y$j75$c2FsdA$"}, {"echo", "$2b$04$abcdefghijklmnopqrstuu"}, {"foxtrot", "_J9..salt"},
+  {"alpha", "$1$saltsalt$"}, {"bravo phrase", "ab"}, {"charlie", "$5$rounds=1000$abc$"}, {"delta", "$y$j75$n34PoBLMgF5$"}, {"echo", "$2b$04$abcdefghijklmnopqrstuu"}, {"foxtrot", "_J9..salt"},
   {"golf", "*0"}, {"hotel", "$1$bad salt"}, {"india", ""}, {"juliet", "$zz$"},
 };
 static const int NREQ = sizeof REQ / sizeof *REQ;
